@@ -348,17 +348,27 @@ def aim(ctx):
                     f'H * max_field to the axis',
                     construct=f'{name}: field angle'))
         if tele:
-            na = A('self.optic.aperture.value')
-            okt = sym.eq(dz * na, sym.sqrt(ONE - na * na)) and \
-                rat_eq(dx, A('Px') * vx) and rat_eq(dy, A('Py') * vy)
+            # NA = n0 sin(U): the marginal ray (P = 1) makes the angle
+            # U = asin(NA / n0) with the axis, n0 the index of the object
+            # medium at the traced wavelength
+            ncalls = [a_ for a_, d_ in sym.defs.items()
+                      if d_[0].startswith('call:') and d_[0].endswith(
+                          'object_surface.material_post.n') and
+                      len(d_[1]) == 1 and rat_eq(d_[1][0], A('wavelength'))]
+            okt = False
+            if len(ncalls) == 1:
+                sn = A('self.optic.aperture.value') / A(ncalls[0])
+                okt = sym.eq(dz * sn, sym.sqrt(ONE - sn * sn)) and \
+                    rat_eq(dx, A('Px') * vx) and rat_eq(dy, A('Py') * vy)
             if okt:
                 res.ok(f'{name}: chief ray parallel to the axis, marginal '
-                       f'slope tan(asin(NA))')
+                       f'slope tan(asin(NA / n_object))')
             else:
                 res.fail(ctx.finding(
                     'AIM', gen, gen.node,
                     f'{name}: launch is not telecentric with the stated '
-                    f'numerical aperture', construct=f'{name}: telecentric'))
+                    f'numerical aperture NA = n sin(U) of the object medium',
+                    construct=f'{name}: telecentric'))
         # RAY-INIT
         if rat_eq(inten, ONE) and rat_eq(wl, A('wavelength')):
             res.ok(f'{name}: unit intensity, requested wavelength')
@@ -399,7 +409,8 @@ def aim(ctx):
 def trace_entry(ctx):
     P = ctx.P
     res = Result('TRACE-ENTRY', 'Optic.trace / trace_generic: pupil '
-                 'coordinates from the distribution, shrunk only by (1 - v); '
+                 'coordinates from the distribution, handed on unscaled (the '
+                 'generator shrinks them by (1 - v), exactly once); '
                  'generator receives (Hx, Hy, Px, Py, wavelength) in order; '
                  'the surface group traces the generated rays')
     for q in ('Optic.trace', 'Optic.trace_generic'):
@@ -449,8 +460,22 @@ def trace_entry(ctx):
             src = A(tgt) if 'generic' in q else A(
                 'distribution.' + ('x' if tgt == 'Px' else 'y'))
             vv = A('vx' if tgt == 'Px' else 'vy')
-            if rat_eq(v, src * (ONE - vv)):
-                res.ok(f'{q}: {tgt} = source * (1 - v{tgt[1].lower()})')
+            # VIG-ONCE: the ray generator multiplies the pupil coordinates
+            # by (1 - v) (AIM rule); the entry points must hand them on
+            # unscaled, otherwise the factor is applied two or three times
+            # and trace() / trace_generic() aim at different pupil points
+            if rat_eq(v, src):
+                res.ok(f'{q}: {tgt} handed to the generator unscaled '
+                       f'(vignetting applied once, by the generator)')
+            elif rat_eq(v, src * (ONE - vv)):
+                bad = True
+                res.fail(ctx.finding(
+                    'TRACE-ENTRY', f, n,
+                    f'{q}: pupil coordinate {tgt} is multiplied by (1 - v) '
+                    f'here and again by the ray generator: with v = 0.5 the '
+                    f'ray is aimed at a quarter (an eighth through named '
+                    f'distributions) of the pupil radius instead of half',
+                    construct=f'{q} {tgt} scaling'))
             else:
                 bad = True
                 res.fail(ctx.finding(
@@ -469,8 +494,18 @@ def trace_entry(ctx):
                                  construct=f'{q} surface trace'))
     f = P.func('Optic.trace')
     s = Code(P, f)
+    gp = [c for c in ast.walk(f.node) if isinstance(c, ast.Call) and
+          isinstance(c.func, ast.Attribute) and
+          c.func.attr == 'generate_points']
+    if gp and any(unparse(a) in ('vx', 'vy') for a in gp[0].args) or \
+            any(k.arg in ('vx', 'vy') for c in gp for k in c.keywords):
+        res.fail(ctx.finding(
+            'TRACE-ENTRY', f, gp[0],
+            'Optic.trace lets the named distribution shrink itself by the '
+            'vignetting factors, which the ray generator applies again',
+            construct='Optic.trace distribution vignetting'))
     if 'distribution = create_distribution(distribution)' in s and \
-            'distribution.generate_points(num_rays, vx, vy)' in s and \
+            gp and [unparse(a) for a in gp[0].args][:1] == ['num_rays'] and \
             'isinstance(distribution, str)' in s:
         res.ok('Optic.trace: named distribution created and sampled with '
                'num_rays')
